@@ -119,6 +119,9 @@ CURATED = [
      "<h1><a href=\"a%20b\" title=\"t\">bar</a></h1>\n<table>\n<thead>\n<tr>\n<th align=\"left\"><a href=\"a%20b\" title=\"t\">bar</a></th>\n</tr>\n</thead>\n<tbody>\n</tbody>\n</table>\n"),
     ("[ẞ] [ss] [nope] [nope][]\n\n[SS]: /s\n", "<p><a href=\"/s\">ẞ</a> <a href=\"/s\">ss</a> [nope] [nope][]</p>\n"),
     ("[a   b]: /u\n\n[A\nB]\n", "<p><a href=\"/u\">A\nB</a></p>\n"),
+    # angle-bracket destinations in definitions: escaped brackets, spaces, an empty one
+    ("[foo]: <a\\>b> \"t\"\n[bar]: <c\\<d>\n[baz]: <>\n\n[foo] [bar] [baz]\n",
+     "<p><a href=\"a%3Eb\" title=\"t\">foo</a> <a href=\"c%3Cd\">bar</a> <a href=\"\">baz</a></p>\n"),
 ]
 
 
